@@ -443,6 +443,16 @@ func (g *Gen) unop(v *ssa.UnOp) {
 		if gl, ok := v.X.(*ssa.Global); ok && g.P.NonNilGlobals[gl] {
 			g.guard(not(eq(r, "0")))
 		}
+		if gl, ok := v.X.(*ssa.Global); ok {
+			if lit, ok := g.P.ConstBytesGlobals[gl]; ok && len(lit) <= 16 {
+				facts := []string{eq("(sl_len "+r+")", fmt.Sprint(len(lit))), not(eq("(sl_arr "+r+")", "0"))}
+				ah := g.heap(g.arrHeap(types.Typ[types.Uint8]))
+				for i := 0; i < len(lit); i++ {
+					facts = append(facts, eq(fmt.Sprintf("(select (select %s (sl_arr %s)) (+ (sl_off %s) %d))", ah, r, r, i), fmt.Sprint(int(lit[i]))))
+				}
+				g.guard(and(facts...))
+			}
+		}
 	}
 }
 
